@@ -158,7 +158,16 @@ func Harness_C11_walk() {
 	n := zzverif.Param("n", 3)
 	g := zzBuildGraph(n)
 	start := zzverif.Choose("start", n)
-	q, err := NewCommitsQueue(g.db, [][]byte{g.sums[start]})
+	tips := [][]byte{g.sums[start]}
+	// tips > 1: the walk starts from several ref tips, which may coincide (two refs on
+	// one commit) or be ancestors of one another
+	starts := []int{start}
+	for t := 1; t < zzverif.Param("tips", 1); t++ {
+		s2 := zzverif.Choose("start2", n)
+		starts = append(starts, s2)
+		tips = append(tips, g.sums[s2])
+	}
+	q, err := NewCommitsQueue(g.db, tips)
 	zzverif.Assert("walk-queue-created", err == nil)
 	if err != nil {
 		return
@@ -180,7 +189,11 @@ func Harness_C11_walk() {
 		}
 	}
 	for i := 0; i < n; i++ {
-		if g.reach(start, i) {
+		reached := false
+		for _, st := range starts {
+			reached = reached || g.reach(st, i)
+		}
+		if reached {
 			zzverif.Assert("walk-visits-each-ancestor-once", visits[i] == 1)
 		} else {
 			zzverif.Assert("walk-visits-only-ancestors", visits[i] == 0)
